@@ -9,7 +9,7 @@ Require Import KV.Model.Prelude KV.Model.Condensed KV.Model.Active KV.Model.Dend
   KV.Model.Mst KV.Model.Linkage KV.Model.History
   KV.Proofs.ShapeCheck KV.Proofs.ActiveRefine KV.Proofs.PrimitiveGreedy KV.Proofs.PrimitiveWF KV.Proofs.UpdateSpec
   KV.Proofs.SortProofs KV.Proofs.OrderOnly KV.Proofs.RelabelWF KV.Proofs.PrimThreshold KV.Proofs.MstPrim KV.Proofs.MstCuts
-  KV.Proofs.LWInvariant.
+  KV.Proofs.LWInvariant KV.Model.Chain KV.Proofs.MstWF KV.Proofs.MstTotal KV.Proofs.ChainIter KV.Proofs.ChainInstances.
 From Coq Require Import Relations.
 
 Set Implicit Arguments.
@@ -152,6 +152,66 @@ Proof.
   - intros x y Hx Hy. rewrite Hd. unfold map_dend. cbn [d_steps]. rewrite !labi_map, Hobs.
     rewrite (Hpart x y ltac:(lia) ltac:(lia)). rewrite HM01. cbn [m_obs].
     apply (conn_map M1 (0 :: seq 1 (m_obs M1 - 1)) (exist _ t Ht) x y).
+Qed.
+
+(* ---- C01 / C12 on the full carrier for the selection methods through
+   linkage, mst and nnchain: a well-formed input inside `ok` yields a
+   well-formed dendrogram or the NaN panic ---- *)
+Lemma wf_dend_map_step (n : nat) (l : list (step sub)) :
+  wf_dend n l -> wf_dend n (map (map_step g) l).
+Proof.
+  intros [Hlen Hwf]. split; [rewrite map_length; exact Hlen|].
+  intros j t Ht. rewrite nth_error_map in Ht. destruct (nth_error l j) as [t0|] eqn:E; [|discriminate].
+  inversion Ht; subst t. destruct (Hwf j t0 E) as (W1 & W2 & W3 & W4). unfold wf_step. cbn [map_step s_c1 s_c2 s_size].
+  split; [exact W1|]. split; [exact W2|]. split.
+  - intros i t' Hi Ht'. rewrite nth_error_map in Ht'. destruct (nth_error l i) as [t1|] eqn:E1; [|discriminate].
+    inversion Ht'; subst t'. cbn [map_step s_c1 s_c2]. exact (W3 i t1 Hi E1).
+  - rewrite W4. unfold csize. rewrite !nth_error_map.
+    destruct (s_c1 t0 <? n), (s_c2 t0 <? n); try reflexivity;
+      repeat match goal with |- context [nth_error l ?k] => destruct (nth_error l k) end; reflexivity.
+Qed.
+
+Lemma FS_irrefl a : f_ltb FS a a = false. Proof. apply ltb_irrefl. Qed.
+Lemma FS_trans a b c : f_ltb FS a b = true -> f_ltb FS b c = true -> f_ltb FS a c = true. Proof. apply ltb_trans. Qed.
+Lemma FS_negtrans a b c : f_ltb FS a b = false -> f_ltb FS b c = false -> f_ltb FS a c = false.
+Proof. intros H1 H2. exact (@ltb_negtrans (g a) (g b) (g c) (proj2_sig a) (proj2_sig b) (proj2_sig c) H1 H2). Qed.
+
+Theorem selection_total_wf_carrier (p : profile) (a : algo) (meth : method) s d (m : list T) (n : N) :
+  a = ALinkage \/ a = AMst \/ a = ANnchain -> meth = Single \/ meth = Complete ->
+  (n < two32)%N -> wf_shape n (N.of_nat (length m)) ->
+  Forall (fun v => ok v = true) m ->
+  (exists s' d' m', run_with F p a meth s d m n = Ok (s', d', m') /\ wf_dend (d_obs d') (d_steps d'))
+  \/ run_with F p a meth s d m n = Panic PNaN.
+Proof.
+  intros Ha Hmeth Hn Hshape Hok.
+  destruct (lift_list Hok) as (m1 & Hm1).
+  pose proof (@order_only sub T g (fun _ => True) FS F p
+                (fun x y _ _ => eq_refl) (fun x y _ _ => eq_refl) (conj I eq_refl) (conj I eq_refl)
+                a meth m1 n (st_new sub) (d_new sub 0) s d Hmeth
+                ltac:(apply Forall_forall; intros; exact I)) as Hoo.
+  rewrite Hm1 in Hoo.
+  assert (Hshape1 : wf_shape n (N.of_nat (length m1))) by (rewrite <- Hm1, map_length in Hshape; exact Hshape).
+  (* the run on the subset is total and well formed *)
+  assert (Hsub : (exists s1 d1 mm1, run_with FS p a meth (st_new sub) (d_new sub 0) m1 n = Ok (s1, d1, mm1)
+                     /\ wf_dend (d_obs d1) (d_steps d1))
+                 \/ run_with FS p a meth (st_new sub) (d_new sub 0) m1 n = Panic PNaN).
+  { assert (Hmst : (exists s1 d1 mm1, mst_with (kops_of FS Single) p (st_new sub) (d_new sub 0) m1 n = Ok (s1, d1, mm1)
+                        /\ wf_dend (d_obs d1) (d_steps d1))
+                   \/ mst_with (kops_of FS Single) p (st_new sub) (d_new sub 0) m1 n = Panic PNaN).
+    { destruct (@mst_total sub (kops_of FS Single) p (st_new sub) (d_new sub 0) m1 n Hn Hshape1) as [[[[s1 d1] mm1] H]|H]; [left|right; exact H].
+      exists s1, d1, mm1. split; [exact H|]. exact (@mst_wf sub (kops_of FS Single) p _ _ _ _ _ _ _ H). }
+    destruct Ha as [-> | [-> | ->]]; destruct Hmeth as [-> | ->]; cbn [run_with linkage_with chain_capable]; try exact Hmst.
+    - exact (@nnchain_complete_total_wf sub FS p FS_irrefl FS_trans FS_negtrans _ _ m1 n Hn Hshape1).
+    - exact (@nnchain_single_total_wf sub FS p FS_irrefl FS_trans FS_negtrans _ _ m1 n Hn Hshape1).
+    - exact (@nnchain_complete_total_wf sub FS p FS_irrefl FS_trans FS_negtrans _ _ m1 n Hn Hshape1). }
+  destruct Hsub as [(s1 & d1 & mm1 & Hrun1 & Hwf1)|Hnan].
+  - rewrite Hrun1 in Hoo. cbn [out_of map_out] in Hoo.
+    destruct (run_with F p a meth s d m n) as [[[s' d'] m']| |]; cbn [out_of] in Hoo; try discriminate.
+    injection Hoo as Hd Hm. left. exists s', d', m'. split; [reflexivity|]. rewrite Hd. unfold map_dend. cbn [d_obs d_steps].
+    apply wf_dend_map_step. exact Hwf1.
+  - rewrite Hnan in Hoo. cbn [out_of map_out] in Hoo.
+    destruct (run_with F p a meth s d m n) as [[[s' d'] m']| |]; cbn [out_of] in Hoo; try discriminate.
+    right. inversion Hoo. reflexivity.
 Qed.
 
 End Sub.
